@@ -141,6 +141,11 @@ type End struct {
 	wfail         chan struct{}
 	wfailOnce     sync.Once
 	discard       bool
+	failWriteSet  map[int]bool // one-shot failing write indices
+	// OnWriteEntry, if set (use SetOnWriteEntry), is called at the very start of Write, before
+	// any serialisation: parking here models a transport in which concurrent Write calls are
+	// processed in an order of its own choosing.
+	OnWriteEntry func(rpc *Rpc)
 	// OnRead, if set, is called (no lock held) before each Read blocks, with
 	// the number of envelopes read so far.
 	OnRead func(n int)
@@ -174,6 +179,24 @@ func (e *End) FailWriteAt(n int, once bool) {
 	e.mu.Lock()
 	e.failWriteAt = n
 	e.failWriteOnce = once
+	e.mu.Unlock()
+}
+
+// FailWritesAt makes the writes with these 0-based indices fail, each once.
+func (e *End) FailWritesAt(idx ...int) {
+	e.mu.Lock()
+	if e.failWriteSet == nil {
+		e.failWriteSet = map[int]bool{}
+	}
+	for _, i := range idx {
+		e.failWriteSet[i] = true
+	}
+	e.mu.Unlock()
+}
+
+func (e *End) SetOnWriteEntry(f func(rpc *Rpc)) {
+	e.mu.Lock()
+	e.OnWriteEntry = f
 	e.mu.Unlock()
 }
 
@@ -245,6 +268,12 @@ func (e *End) Read(ctx context.Context) (*Rpc, error) {
 }
 
 func (e *End) Write(ctx context.Context, rpc *Rpc) error {
+	e.mu.Lock()
+	onEntry := e.OnWriteEntry
+	e.mu.Unlock()
+	if onEntry != nil {
+		onEntry(rpc)
+	}
 	dir := e.side
 	sem := e.l.sem[dir]
 	select {
@@ -278,6 +307,10 @@ func (e *End) Write(ctx context.Context, rpc *Rpc) error {
 	idx := e.writes
 	e.writes++
 	fail := e.failWriteAt >= 0 && (idx == e.failWriteAt || (!e.failWriteOnce && idx > e.failWriteAt))
+	if e.failWriteSet[idx] {
+		fail = true
+		delete(e.failWriteSet, idx)
+	}
 	discard := e.discard
 	e.mu.Unlock()
 	if fail {
